@@ -256,6 +256,8 @@ def component_kwargs(spec):
     )
     if spec.get("default") is not None:
         kw["default"] = to_py(spec["default"])
+    if spec.get("componentDrop"):
+        kw["drop_invalid_rows"] = True      # the component's own flag (meant for stand-alone use)
     return kw
 
 
